@@ -110,6 +110,7 @@ var boundsTemplates = map[string]string{
 	"neg_prefix_below": "dst(X) :- src(X), !:match_prefix(X, /foo/a).",
 	"neg_prefix_eq":    "dst(X) :- src(X), !:match_prefix(X, /foo).",
 	"pos_prefix_below": "dst(X) :- src(X), :match_prefix(X, /foo/a).",
+	"pos_prefix_eq":    "dst(X) :- src(X), :match_prefix(X, /foo).",
 	"neg_prefix_other": "dst(X) :- src(X), !:match_prefix(X, /bar).",
 	"none":             "",
 }
